@@ -35,6 +35,7 @@ type buildSpec struct {
 	Name string
 	Tags []string
 	Race bool
+	Env  []string // extra build environment (GOARCH=386)
 }
 
 type configSpec struct {
@@ -61,6 +62,8 @@ var builds = map[string]buildSpec{
 	"force32bit": {Name: "force32bit", Tags: []string{"force32bit"}},
 	"race":       {Name: "race", Race: true},
 	"racepurego": {Name: "racepurego", Tags: []string{"purego"}, Race: true},
+	// a real 32-bit target: the 32-bit limb backends selected by GOARCH (not by tag) AND a 32-bit native int/uint
+	"i386": {Name: "i386", Env: []string{"GOARCH=386"}},
 }
 
 var configs = map[string]configSpec{
@@ -70,6 +73,7 @@ var configs = map[string]configSpec{
 	"u32":        {Name: "u32", Build: "force32bit"},
 	"race":       {Name: "race", Build: "race"},
 	"racepurego": {Name: "racepurego", Build: "racepurego"},
+	"i386":       {Name: "i386", Build: "i386"},
 }
 
 var all4 = []string{"avx2", "asm", "purego", "u32"}
@@ -252,7 +256,7 @@ func (c *ctx) buildOne(b buildSpec, graft bool) (string, error) {
 		args = append(args, "-tags", strings.Join(tags, ","))
 	}
 	args = append(args, "-o", c.binPath(b.Name), "./drv/"+strings.ToLower(c.spec.ID))
-	return run(filepath.Join(c.scratch, "h"), goEnv(), "go", args...)
+	return run(filepath.Join(c.scratch, "h"), append(goEnv(), b.Env...), "go", args...)
 }
 
 func (c *ctx) buildAll(names []string) error {
@@ -434,7 +438,7 @@ func check(spec propSpec, tier string, seed int64, replayFile string) int {
 	if replayFile != "" {
 		cfgNames = []string{replayConfig(replayFile)}
 		if spec.Special == "c06" {
-			cfgNames = all4 // a divergence is replayed in every configuration and the per-call digests are compared
+			cfgNames = five // a divergence is replayed in every configuration and the per-call digests are compared
 		}
 	}
 	bset := map[string]bool{}
